@@ -97,6 +97,24 @@ Theorem c10_stream_cancelled_by_close : forall c i s, c_status c = Closed -> fin
 Proof. exact stream_cancelled_by_close. Qed.
 Print Assumptions c10_stream_cancelled_by_close.
 
+(* MAIN (pending callers): stream calls that are PENDING when Close is called - writers blocked in
+   WriteDataPoints because no flush loop exists during an outage, Flush callers, consumers blocked in
+   ReadDataPoints / ReadMetadata - return the stream-closed sentinel: after ANY history of the code as it
+   is that contains a Close call, for a stream that is open or waiting for the reconnect, one wake-up of
+   its watcher and of its supervisor ends every such wait with StreamClosed; until the stream context is
+   cancelled nothing else ends it. *)
+Theorem c10_pending_stream_calls_return : forall pre post i s a,
+  let c := fst (run (init faithful) (pre ++ ECloseCall :: post)) in
+  find_s i (c_streams c) = Some s -> (s_phase s = SWatch \/ s_phase s = SWaitConn) -> data_path a = true ->
+  pending_stream_call (fst (run c [EWatch i; ESup i])) i a = RStreamClosed.
+Proof. exact pending_stream_calls_return_now. Qed.
+Print Assumptions c10_pending_stream_calls_return.
+
+Theorem c10_pending_stream_call_blocked_until_cancel : forall c i s a, find_s i (c_streams c) = Some s ->
+  (forall e b, s_phase s <> SClosed e b) -> pending_stream_call c i a = RBlocked.
+Proof. exact pending_stream_call_blocked_until_cancel. Qed.
+Print Assumptions c10_pending_stream_call_blocked_until_cancel.
+
 (* Silence: once Closed, the wire connection closed and the loop outside reconnect(), NOTHING is
    written any more - no request, resume, close request, call, chunk, ack, handshake, Disconnect *)
 Theorem c10_silence : forall evs c, c_status c = Closed -> c_wclosed c = true -> c_loop c <> LDial ->
